@@ -54,7 +54,7 @@ def cases(seed, tier):
     filt = [(p, b) for p in (None, 'PARAMETRIC', 'NON_PARAMETRIC') for b in (None, 'BOUNDED', 'SEMI_BOUNDED', 'UNBOUNDED')
             if expected_candidates(p, b)]
     names = sorted(TAGS)
-    reps = 8 if tier == 'quick' else 60
+    reps = 8 if tier == 'quick' else 250
     for r in range(reps):
         for (p, b) in filt:
             out.append({'mode': 'select', 'config': {'parametric': p, 'bounded': b},
@@ -73,7 +73,7 @@ def cases(seed, tier):
                                  'seed': int(rng.integers(1 << 31))}})
         out.append({'mode': 'select', 'config': {'selection_sample_size': 50},
                     'data': {'kind': str(rng.choice(uni.DATA_KINDS)), 'n': 2000, 'seed': int(rng.integers(1 << 31))}})
-    for r in range(12 if tier == 'quick' else 150):
+    for r in range(12 if tier == 'quick' else 700):
         for form in ('default', 'class', 'name', 'instance', 'dict', 'failing'):
             out.append({'mode': 'table', 'form': form, 'd': int(rng.integers(2, 6)), 'n': int(rng.choice([60, 400])),
                         'seed': int(rng.integers(1 << 31))})
